@@ -263,7 +263,10 @@ fn run_case(out: &mut Out, cap: usize, hist: &[Req]) {
                 out.count("old_key_merged_now_split");
             }
         }
-        if !rq.write {
+        if rq.write {
+            // the graph may have changed: answers before and after are not comparable
+            fresh_answers.clear();
+        } else {
             fresh_answers.push((key.clone(), q.to_string(), ans_fresh.clone()));
         }
         if q.contains('\u{a0}') || q.contains('\u{2003}') || q.contains('\u{3000}') || q.contains('\x0b') || q.contains('\x0c') {
